@@ -85,7 +85,7 @@ def load_known():
         return out
     for ln in open(KNOWN):
         ln = ln.strip()
-        m = re.match(r"finding:\s+property=(C\d+)\s+key=(\S+)\s*(.*)", ln)
+        m = re.match(r"finding:\s+property=(C\d+)\s+key=(.*?)\s+\|\|\s+(.*)", ln)
         if m:
             out[(m.group(1), m.group(2))] = m.group(3)
     return out
